@@ -67,9 +67,9 @@ func init() {
 			"the race detector and ASan see only executed accesses on the Go heap / data segments; the rodata write trap sees any store into corpus memory"},
 		Flavours: func(tier string) []string {
 			if tier == "thorough" {
-				return []string{"release", "release#order", "race", "race#2", "race#3", "noopt", "nooptl", "asan", "go126"}
+				return []string{"release", "release#order", "race", "race#2", "race#3", "noopt", "nooptl", "asan", "go126", "debug"}
 			}
-			return []string{"release", "release#order", "race", "race#2", "noopt"}
+			return []string{"release", "release#order", "race", "race#2", "noopt", "go126", "debug"}
 		},
 		Required: req,
 		// "its result depends only on its arguments": the calls of the cold phase of the release process, made again by a
